@@ -190,7 +190,7 @@ static const family families[FAM_N] = {
 /* Which family a property's check runs by default when the tape's family byte is b. */
 static int pick_family (int prop, unsigned b) {
 	switch (prop) {
-	case P_C01: return ((b % 4) == 0 ? FAM_LOCK : FAM_MON);
+	case P_C01: return ((b % 8) == 7 ? FAM_STARVE : (b % 4) == 0 ? FAM_LOCK : FAM_MON);   /* STARVE: a waiter woken more than 30 times */
 	case P_C02: return ((b % 8) == 7 ? FAM_STARVE : (b % 2) == 0 ? FAM_LOCK : FAM_MON);   /* STARVE: long lock/unlock sequences */
 	case P_C03: { static const int f[] = { FAM_MON, FAM_LOCK, FAM_ONCE, FAM_NOTE, FAM_CTR, FAM_WAITN, FAM_MON, FAM_WAITN }; return (f[b % 8]); }
 	case P_C04: case P_C05: case P_C06: return (FAM_MON);
